@@ -152,8 +152,8 @@ theorem cast_agrees (env : Env) (k : Kind) (d : DVal) (s raw : Str) (hres : reso
     | some i =>
       by_cases hf : intFits bits i = true <;> simp [hf, decodeKind, R.fail]
   | uint bits =>
-    simp only [castTo, castExpect, parseUintLit]
-    cases decimalNat raw with
+    simp only [castTo, castExpect]
+    cases parseUintLit raw with
     | none => simp [decodeKind, R.fail]
     | some n =>
       by_cases hf : uintFits bits n = true
